@@ -1,2 +1,4 @@
 -- Root of the `SamplyModel` library. All modules under `SamplyModel/` are built through the
 -- `globs` entry of lakefile.toml; nothing needs to be imported here.
+import SamplyModel.Model.SymbolicateFront
+import SamplyModel.Lemmas.SymbolicateE
